@@ -4,12 +4,12 @@ package main
 // property), split into the galaxy-owned part (compared with the expected-state model) and the foreign part
 // (compared byte for byte with the start of the run).
 //
-// Ownership rule used by the oracle = galaxy's documented naming scheme: the filter-table chains GLX-INGRESS,
-// GLX-EGRESS, GLX-PLCY-<hash> and GLX-POD-<hash>, rules of built-in filter chains that jump to GLX-INGRESS /
-// GLX-EGRESS, and the ipsets GLX-ip-<hash>, GLX-sip-<i>-<hash>, GLX-snet-<i>-<hash>, GLX-dip-<i>-<hash>,
-// GLX-dnet-<i>-<hash>. Everything else - other chains and their rules (also chains and sets whose names merely
-// start with "GLX": GLX-FOO, GLX-PLCYBACKUP, GLXFW, GLX-backup), the remaining rules and the policies of built-in
-// chains, the nat and mangle tables, other sets - is foreign.
+// Ownership rule used by the oracle: galaxy declares the name prefix "GLX" as its namespace (NamePrefix in
+// pkg/policy/policy.go, as KUBE- is kube-proxy's). Filter-table chains and ipsets whose name starts with GLX, and
+// rules of built-in filter chains that jump to GLX-INGRESS / GLX-EGRESS, are galaxy's, whatever follows the prefix.
+// Everything else - other chains and their rules (also names that merely resemble the prefix: GL-PLCY-FOO,
+// XGLX-PLCYBACKUP, glx-fw, MY-GLX-backup), the remaining rules and the policies of built-in chains, the nat and
+// mangle tables, other sets - is foreign.
 
 import (
 	"fmt"
@@ -19,17 +19,7 @@ import (
 	"tkestack.io/galaxy/verifsim/simkernel"
 )
 
-func owned(name string) bool {
-	if name == ingressDispatch || name == egressDispatch {
-		return true
-	}
-	for _, pre := range []string{"GLX-PLCY-", "GLX-POD-", "GLX-ip-", "GLX-sip-", "GLX-snet-", "GLX-dip-", "GLX-dnet-"} {
-		if strings.HasPrefix(name, pre) {
-			return true
-		}
-	}
-	return false
-}
+func owned(name string) bool { return strings.HasPrefix(name, "GLX") }
 
 // ObsSet is an observed ipset.
 type ObsSet struct {
